@@ -54,6 +54,9 @@ def parse_cond(e, consts):
             lit = rhs.value
         elif isinstance(rhs, ast.Name) and rhs.id in consts:
             lit = consts[rhs.id]
+        elif isinstance(rhs, (ast.Tuple, ast.List, ast.Set)) and rhs.elts and all(
+                isinstance(x, ast.Constant) and isinstance(x.value, str) for x in rhs.elts):
+            lit = tuple(x.value for x in rhs.elts)
         else:
             raise LexShapeError(f"condition operand not a literal: {norm(e)}")
         if var == "ch":
@@ -143,11 +146,12 @@ class Leaf:
         self.first_line = 0
         self.in_try_convert = []  # conversions guarded by try (text)
         self.conversions = []     # (text, guarded: bool)
+        self.locals = {}          # scratch local -> constant it was last set to on this path
 
     def clone(self):
         l = Leaf(self.state)
         for k, v in self.__dict__.items():
-            setattr(l, k, list(v) if isinstance(v, list) else v)
+            setattr(l, k, list(v) if isinstance(v, list) else dict(v) if isinstance(v, dict) else v)
         return l
 
     def matches(self, c):
@@ -366,13 +370,21 @@ class LexModel:
             if v not in ("pos", "ch", "line", "column", "fname"):
                 # a scratch local: cannot change the modelled scanner state
                 leaf.tempbuf.append(("local:" + v, norm(st.value)))
+                if isinstance(st.value, ast.Constant):
+                    leaf.locals[v] = st.value
+                else:
+                    leaf.locals.pop(v, None)
                 return
             raise LexShapeError(f"unrecognised scanner assignment: {txt}")
         if isinstance(st, ast.Expr) and isinstance(st.value, ast.Call) \
                 and norm(st.value.func) == "self.tokens.append" and len(st.value.args) == 1:
             tok = st.value.args[0]
+            ttype = tok.args[1] if isinstance(tok, ast.Call) and len(tok.args) == 3 else None
+            if isinstance(ttype, ast.Name) and ttype.id in leaf.locals:
+                ttype = leaf.locals[ttype.id]
             if isinstance(tok, ast.Call) and norm(tok.func) == "Token" and len(tok.args) == 3 \
-                    and isinstance(tok.args[1], ast.Constant):
+                    and isinstance(ttype, ast.Constant):
+                tok = ast.Call(func=tok.func, args=[tok.args[0], ttype, tok.args[2]], keywords=[])
                 pos = tok.args[2]
                 if isinstance(pos, ast.Name) and pos.id == "here" and leaf.here_exprs:
                     pos = leaf.here_exprs[-1]
